@@ -24,7 +24,7 @@ func init() {
 		Decides: "four structural necessary conditions of lib/flatecut and lib/zlibcut. (S) sentinel discipline: every result of bitstream.take / huffman.decode / huffman.slowDecode (which return mostNegativeInt32 on exhausted or invalid input), also after a constant or an RFC table entry has been added to it, is sign-tested on every path before it is used as an index, slice/make/loop bound, conversion or arithmetic operand; the negative branch returns a non-nil error; table+result cannot wrap. " +
 			"(T) the constant tables equal what RFC 1951 prescribes, computed independently: codeOrder, lBases/lExtras, dBases/dExtras (base[k+1]=base[k]+2^extra[k], anchors 3..258 and 1..24577, sentinel in unused slots), the fixed-Huffman code length runs, the HLIT/HDIST/HCLEN field widths, offsets and the 286/30/19 limits, the repeat codes 16/17/18, cutSingleBlock's stored-block header (0x01, LEN, ~LEN little-endian, 0xFFFF cap) and the empty fixed block 0x03 0x00. " +
 			"(G) flatecut.Cut establishes maxEncodedLen <= len(encoded) and maxEncodedLen >= SmallestValidMaxEncodedLen after the last assignment to maxEncodedLen and before the cutter is constructed, and those two values are what every cutSingleBlock call receives (pre-condition of its panic and of its unconditional writes); zlibcut.Cut establishes the header and trailer length guards before indexing/slicing and passes encoded[payloadStart:len-4] and maxEncodedLen-payloadStart-4 to flatecut.Cut. " +
-			"(Z) on zlibcut.Cut's success path the 4 bytes at payloadStart+encodedLen are hasher.Sum32() big-endian, the hasher is adler32.New() and received everything written (directly or through io.MultiWriter), flatecut's error is tested, and the returned length is payloadStart+encodedLen+4 (L.budget) in every block handler of the cutter that consumes bits through calls, each `return nil` (block consumed; its end may become the encoded length) is reached only past a comparison of the position with maxEncodedLen, taken in the direction 'fits', after the last bit-consuming call",
+			"(Z) on zlibcut.Cut's success path the 4 bytes at payloadStart+encodedLen are hasher.Sum32() big-endian, the hasher is adler32.New() and received everything written (directly or through io.MultiWriter), flatecut's error is tested, and the returned length is payloadStart+encodedLen+4 (L.budget) in every block handler of the cutter that consumes bits through calls, each `return nil` (block consumed; its end may become the encoded length) is reached only past a comparison of the position with maxEncodedLen, taken in the direction 'fits', after the last bit-consuming call; (L.budget.stored) a plain store that advances the bit reader's index by a sum with a data-dependent term (doStored) is reached only after that term was compared with a maxEncodedLen-derived value and fits, or was itself assigned from one",
 		NotDecided: "the substance of the property: that the cut point leaves room for the end-of-block code, the bit patching of the final-block flag, stored-block shortening, the Huffman construction and end-code computation, that encoded[:encodedLen] decodes to a prefix of the original, that encodedLen <= maxEncodedLen, and absence of run-time panics from indexes that are not sentinel results (bit-level arithmetic: declined). The FDICT `len(encoded) < 6` test of zlibcut.Cut is not required separately because the trailer guard (len >= payloadStart+4) subsumes it",
 		Assumptions: []string{
 			"go/types, go/cfg and go/ssa (x/tools v0.29.0) model Go faithfully; two's-complement int32 arithmetic",
